@@ -261,40 +261,46 @@ void h_f_rebuild(void) { level *l; bmat *A; const coarsening *C; f_rebuild(l, A,
 # ------------------------------------------------------------------ amg::rebuild(A)
 AMG_REBUILD_T = HDR + r"""
 typedef struct lvl { int unused; } lvl;
-typedef struct amg { _Bool allow_rebuild; lvl *levels; size_t nlev; int sysmat; } amg;   /* sysmat: id of system_matrix() */
+typedef struct amg { _Bool allow_rebuild; lvl *levels; size_t nlev; int sysmat; int coarsening_prm; } amg;   /* sysmat: id of system_matrix(); coarsening_prm: id of prm.coarsening */
+typedef struct coarsening_type { int built_from; } coarsening_type;   /* the coarsening object remembers the parameters it was constructed with (-1: default-constructed) */
+#define COARSENING_FROM(p) ((coarsening_type){p})
+#define COARSENING_DEFAULT ((coarsening_type){-1})
 /* ghost: chain of level rebuilds */
-_Bool g_chain_ok, g_order_ok; int g_prev_out; size_t g_n_rebuilt; lvl *g_levels;
+_Bool g_chain_ok, g_order_ok, g_coars_ok; int g_prev_out; size_t g_n_rebuilt; lvl *g_levels; int g_coars_prm;
 /* level::rebuild(A, C, prm, bprm): contract proved by unit level_rebuild; here: each level is rebuilt with the
  * matrix returned by the previous level, in order */
-bmat bk_level_rebuild(lvl *l, bmat A)
-__CPROVER_assigns(g_chain_ok, g_order_ok, g_prev_out, g_n_rebuilt)
+bmat bk_level_rebuild(lvl *l, bmat A, coarsening_type C)
+__CPROVER_assigns(g_chain_ok, g_order_ok, g_coars_ok, g_prev_out, g_n_rebuilt)
+/* the coarse operators are recomputed by a coarsening object constructed from the hierarchy's OWN coarsening parameters
+ * (over-interpolation factor etc.) */
+__CPROVER_ensures(g_coars_ok == (__CPROVER_old(g_coars_ok) && C.built_from == g_coars_prm))
 __CPROVER_ensures(g_prev_out == __CPROVER_return_value.id)
 __CPROVER_ensures(g_chain_ok == (__CPROVER_old(g_chain_ok) && A.id == __CPROVER_old(g_prev_out)))
 __CPROVER_ensures(g_order_ok == (__CPROVER_old(g_order_ok) && l == g_levels + __CPROVER_old(g_n_rebuilt)))
 __CPROVER_ensures(g_n_rebuilt == __CPROVER_old(g_n_rebuilt) + 1);
-#define LEVEL_REBUILD(l, A) bk_level_rebuild(&(l), A)
+#define LEVEL_REBUILD(l, A, C) bk_level_rebuild(&(l), A, C)
 #define PRECONDITION2(c) do { if (!(c)) { g_thrown = 1; return; } } while (0)
 
 /* the shared_ptr<build_matrix> handle is viewed as a value (rule R-smartptr: *A -> A) */
 void f_amg_rebuild(amg *self, bmat A)
 __CPROVER_requires(__CPROVER_is_fresh(self, sizeof(*self)))
 __CPROVER_requires(self->nlev <= (1UL << 40) && __CPROVER_is_fresh(self->levels, self->nlev * sizeof(lvl)))
-__CPROVER_requires(g_levels == self->levels && g_n_rebuilt == 0 && g_chain_ok && g_order_ok && g_prev_out == A.id && !g_thrown)
-__CPROVER_assigns(g_thrown, g_chain_ok, g_order_ok, g_prev_out, g_n_rebuilt)
+__CPROVER_requires(g_levels == self->levels && g_n_rebuilt == 0 && g_chain_ok && g_order_ok && g_coars_ok && g_coars_prm == self->coarsening_prm && g_coars_prm >= 0 && g_prev_out == A.id && !g_thrown)
+__CPROVER_assigns(g_thrown, g_chain_ok, g_order_ok, g_coars_ok, g_prev_out, g_n_rebuilt)
 /* rebuild without allow_rebuild, or with a matrix of another shape, is refused */
 __CPROVER_ensures((!self->allow_rebuild || ROWS(A.id) != ROWS(self->sysmat) || COLS(A.id) != ROWS(A.id)) ==> (g_thrown && g_n_rebuilt == 0))
 /* C03: every level is rebuilt exactly once, in order, each from the matrix the previous level returned */
-__CPROVER_ensures(!g_thrown ==> (g_n_rebuilt == self->nlev && g_chain_ok && g_order_ok))
+__CPROVER_ensures(!g_thrown ==> (g_n_rebuilt == self->nlev && g_chain_ok && g_order_ok && g_coars_ok))
 {
   lvl *const levels = self->levels; const size_t nlev = self->nlev;
-  struct { _Bool allow_rebuild; } prm = { self->allow_rebuild };
+  struct { _Bool allow_rebuild; int coarsening; } prm = { self->allow_rebuild, self->coarsening_prm };
 /*@CUT:body@*/
 }
 void h_f_amg_rebuild(void) { amg *s; bmat A; f_amg_rebuild(s, A); }
 """
 AMG_REBUILD_LOOP = r"""
-__CPROVER_assigns(li_, A, g_chain_ok, g_order_ok, g_prev_out, g_n_rebuilt)
-__CPROVER_loop_invariant(li_ <= nlev && g_n_rebuilt == li_ && g_chain_ok && g_order_ok && g_prev_out == A.id)
+__CPROVER_assigns(li_, A, g_chain_ok, g_order_ok, g_coars_ok, g_prev_out, g_n_rebuilt)
+__CPROVER_loop_invariant(li_ <= nlev && g_n_rebuilt == li_ && g_chain_ok && g_order_ok && g_coars_ok && g_prev_out == A.id)
 __CPROVER_decreases(nlev - li_)
 """
 amg_rebuild = Unit(
@@ -306,9 +312,10 @@ amg_rebuild = Unit(
                              Rule(r',\s*\n?\s*"[^"]*"\s*\n?\s*\);', '));', 2, why='R-pre message dropped'),
                              Rule(r'rows\(system_matrix\(\)\)', 'ROWS(self->sysmat)', 1, why='member call'),
                              Rule(r'\*A\b', 'A', '+', why='R-smartptr: handle viewed as value'),
-                             Rule(r'coarsening_type C\(prm\.coarsening\);', '', 1, why='constructor of the coarsening object dropped (opaque)'),
+                             Rule(r'coarsening_type C\(([^;()]*)\);', r'coarsening_type C = COARSENING_FROM(\1);', None, why='constructor call -> provenance record'),
+                             Rule(r'coarsening_type C;', 'coarsening_type C = COARSENING_DEFAULT;', None, why='default construction -> provenance record'),
                              Rule(r'for\(auto &level : levels\)', 'for(size_t li_ = 0; li_ < nlev; ++li_)', 1, why='R-rangefor'),
-                             Rule(r'level\.rebuild\(A, C, prm, bprm\)', 'LEVEL_REBUILD(levels[li_], A)', 1, why='member call -> C call')],
+                             Rule(r'level\.rebuild\(A, (\w+), prm, bprm\)', r'LEVEL_REBUILD(levels[li_], A, \1)', 1, why='member call -> C call')],
                       loops=[Loop('for(auto &level : levels)', AMG_REBUILD_LOOP)])},
     template=AMG_REBUILD_T, enforce='f_amg_rebuild', replace=['bk_level_rebuild'],
     mode='inductive', obj_bits=12, timeout=200, assumptions=A_SETUP, replay='orchestration',
@@ -318,7 +325,10 @@ amg_rebuild = Unit(
 # ------------------------------------------------------------------ amg::do_init
 DO_INIT_T = HDR + r"""
 typedef struct hmat { int id; _Bool null; } hmat;           /* shared_ptr<build_matrix> handle viewed as a value (null = empty pointer) */
-typedef struct init_prm { size_t coarse_enough; _Bool direct_coarse; size_t max_levels; _Bool allow_rebuild; } init_prm;
+typedef struct init_prm { size_t coarse_enough; _Bool direct_coarse; size_t max_levels; _Bool allow_rebuild; int coarsening; } init_prm;
+typedef struct coarsening_type { int built_from; } coarsening_type;   /* remembers the parameters it was constructed with (-1: default) */
+#define COARSENING_FROM(p) ((coarsening_type){p})
+#define COARSENING_DEFAULT ((coarsening_type){-1})
 /* ghost: the hierarchy under construction */
 size_t g_nlev; int g_last_kind; int g_last_mat; _Bool g_chain_ok; unsigned long g_steps;
 enum { K_SMOOTHER = 1, K_DIRECT = 2 };
@@ -338,17 +348,18 @@ __CPROVER_assigns(g_nlev, g_last_kind, g_last_mat, g_chain_ok)
 __CPROVER_ensures(g_nlev == __CPROVER_old(g_nlev) + 1 && g_last_kind == K_DIRECT && g_last_mat == A.id)
 __CPROVER_ensures(g_chain_ok == (__CPROVER_old(g_chain_ok) && single_level == (__CPROVER_old(g_nlev) == 0)));
 /* levels.back().step_down(A, C, bprm, allow_rebuild): must be applied to the level just pushed, with the matrix that level was built from */
-hmat bk_step_down(hmat A, _Bool allow_rebuild, _Bool allow_rebuild_prm)
+hmat bk_step_down(hmat A, coarsening_type C, int coarsening_prm, _Bool allow_rebuild, _Bool allow_rebuild_prm)
 __CPROVER_requires(!A.null)
 __CPROVER_assigns(g_chain_ok, g_steps)
 __CPROVER_ensures(g_steps == __CPROVER_old(g_steps) + 1)
-__CPROVER_ensures(g_chain_ok == (__CPROVER_old(g_chain_ok) && g_last_kind == K_SMOOTHER && g_last_mat == A.id && allow_rebuild == allow_rebuild_prm));
+__CPROVER_ensures(g_chain_ok == (__CPROVER_old(g_chain_ok) && g_last_kind == K_SMOOTHER && g_last_mat == A.id && allow_rebuild == allow_rebuild_prm
+                                 && C.built_from == coarsening_prm));   /* the coarsening object was constructed from prm.coarsening */
 #define PUSH_LEVEL(A) bk_push_level(A)
 #define PRECONDITION2(c) do { if (!(c)) { g_thrown = 1; return; } } while (0)
 
 void f_do_init(const init_prm *self, hmat A)
 __CPROVER_requires(__CPROVER_is_fresh(self, sizeof(*self)) && !A.null)
-__CPROVER_requires(g_nlev == 0 && g_chain_ok && g_steps == 0 && g_last_kind == 0 && !g_thrown && self->max_levels <= (1UL << 40))
+__CPROVER_requires(g_nlev == 0 && g_chain_ok && g_steps == 0 && g_last_kind == 0 && !g_thrown && self->max_levels <= (1UL << 40) && self->coarsening >= 0)
 __CPROVER_assigns(g_thrown, g_nlev, g_last_kind, g_last_mat, g_chain_ok, g_steps)
 /* non-square input is refused */
 __CPROVER_ensures(ROWS(A.id) != COLS(A.id) ==> (g_thrown && g_nlev == 0))
@@ -382,10 +393,11 @@ do_init = Unit(
     cuts={'body': Cut('amgcl/amg.hpp', r'void do_init\(\s*std::shared_ptr<build_matrix> A,\s*const backend_params &bprm = backend_params\(\)\s*\)\s*(?=\{)',
                       rules=[Rule(r'PRECONDITION\(', 'PRECONDITION2((', 1, why='R-pre (void function)'),
                              Rule(r',\s*\n?\s*"[^"]*"\s*\n?\s*\);', '));', 1, why='R-pre message dropped'),
-                             Rule(r'coarsening_type C\(prm\.coarsening\);', '', 1, why='constructor of the coarsening object dropped (opaque)'),
+                             Rule(r'coarsening_type C\(([^;()]*)\);', r'coarsening_type C = COARSENING_FROM(\1);', None, why='constructor call -> provenance record'),
+                             Rule(r'coarsening_type C;', 'coarsening_type C = COARSENING_DEFAULT;', None, why='default construction -> provenance record'),
                              Rule(r'levels\.push_back\( level\(A, prm, bprm\) \);', 'PUSH_LEVEL(A);', None, why='container call -> C call'),
                              Rule(r'levels\.size\(\)', 'g_nlev', None, why='container call'),
-                             Rule(r'levels\.back\(\)\.step_down\(A, C, bprm, ([\w.]+)\)', r'bk_step_down(A, \1, self->allow_rebuild)', None, why='member call -> C call'),
+                             Rule(r'levels\.back\(\)\.step_down\(A, (\w+), bprm, ([\w.]+)\)', r'bk_step_down(A, \1, self->coarsening, \2, self->allow_rebuild)', None, why='member call -> C call'),
                              Rule(r'level l;\s*l\.create_coarse\(A, bprm, levels\.empty\(\)\);\s*levels\.push_back\(l\);', 'bk_push_coarse(A, g_nlev == 0);', None, why='three statements building the coarse level -> one C call'),
                              Rule(r'!A\b', 'A.null', None, why='R-smartptr null test'),
                              Rule(r'\*A\b', 'A', None, why='R-smartptr: handle viewed as value')],
